@@ -70,14 +70,13 @@ def random_layout(seed, tier='quick'):
             k = r.choice(rows[:-1])
             extra = r.choice([1, 1, 2])
             src = lines[k]['cells']
-            kind = r.random()
-            if all(c['k'] == 'bar' for c in src):
-                cells = [dict(src[0]) for _ in range(len(src) + extra)]
-            elif kind < 0.5:
-                cells = [gen.NULL() for _ in range(len(src) + extra)]
-            else:
-                cells = [gen.lit('text', r.choice(['x', '4c', '.', 'la'])) if False else gen.NULL() for _ in range(len(src))] + \
-                        [gen.lit('null', '.') for _ in range(extra)]
+            # the surplus line is of the same kind as the line it replaces (data, local comment, barline, interpretation,
+            # spine operators): its own cells plus `extra` more of the kind of its last cell
+            import copy
+            last = src[-1]
+            filler = gen.NULL() if last['k'] in ('note', 'chord', 'text', 'err', 'null') else \
+                gen.NULLI() if last['k'] in ('split', 'join', 'term', 'nulli', 'clef', 'keysig', 'timesig', 'meter', 'staff', 'bbox', 'octx', 'tandem', 'visual') else copy.deepcopy(last)
+            cells = copy.deepcopy(src) + [copy.deepcopy(filler) for _ in range(extra)]
             lines = lines[:k] + [{'ev': 'surplus', 'cells': cells}]
             tags.append('surplus')
     evs, doc, text = session.record_import(lines)
